@@ -428,9 +428,10 @@ Proof. revert l; induction n as [|n IH]; intros l; cbn; auto. destruct l; cbn; a
 Lemma ops_resp h o p t key v ok : In o (ops_of h) -> o_resp o = Some (p, (t, key, v, ok)) ->
   nth_error h p = Some (HResp (o_client o) (o_idx o) t key v ok) /\ o_inv o < p.
 Proof.
-  unfold ops_of. intros H Hr. apply ops_from_spec in H as (k & c & i & r & Hn & ->). cbn in *.
+  unfold ops_of. intros H Hr. apply ops_from_spec in H as (k & c & i & r & Hn & ->).
+  cbn [o_resp o_inv o_client o_idx o_req] in *.
   apply find_resp_spec in Hr as (k' & -> & Hk). rewrite nth_error_skipn in Hk. split; [|lia].
-  replace (S k + k') with (S (k + k')) in * by lia. replace (S k + k') with (S (k + k')) by lia. exact Hk.
+  replace (0 + S k + k') with (S k + k') by lia. exact Hk.
 Qed.
 
 Lemma ops_of_inv h c i r : In (HInv c i r) h -> exists o, In o (ops_of h) /\ o_client o = c /\ o_idx o = i /\ o_req o = r.
